@@ -352,5 +352,6 @@ pub fn subs() -> Vec<Box<dyn DynSub>> {
         sub(Sub { name: "c02.std", source: Source::Gen(std_strategy, 1_600_000, 10_000_000), oracle: std_oracle, known: no_known, hang_is_violation: false }),
         sub(Sub { name: "c02.trunc", source: Source::Gen(trunc_strategy, 3_200_000, 30_000_000), oracle: trunc_oracle, known: no_known, hang_is_violation: false }),
         sub(Sub { name: "c02.readback", source: Source::Gen(readback_strategy, 2_000_000, 20_000_000), oracle: readback_oracle, known: readback_known, hang_is_violation: false }),
+        crate::props::fuzzsub::fc02(),
     ]
 }
